@@ -1198,10 +1198,31 @@ impl<'a> Gen<'a> {
                     }
                     2 if self.f.hostile => {
                         // prefix and key with side effects: extt()[ext("k")] += ext("v")
-                        let key = call("ext", vec![Expr::str("k")]);
+                        let any = || Box::new(Ty { kind: "name", text: "any".into(), kids: vec![], exprs: vec![] });
+                        let k0 = call("ext", vec![Expr::str("k")]);
+                        // every shape of key the rule tells apart, each with a side effect inside
+                        let key = match self.r.below(12) {
+                            0 => Expr::Cast(Box::new(k0), any()),
+                            1 => Expr::paren(k0),
+                            2 => Expr::bin(BinOp::Concat, k0, Expr::str("x")),
+                            3 => Expr::Unary(UnOp::Neg, Box::new(k0)),
+                            4 => Expr::IfExpr { clauses: vec![(call("extb", vec![]), Expr::str("a"))], else_: Box::new(Expr::str("b")) },
+                            5 => Expr::Interp(vec![InterpPart::Str(b"k".to_vec()), InterpPart::Expr(k0)]),
+                            6 => Expr::index(call("extt", vec![]), num(1.0)),
+                            7 => Expr::field(call("extt", vec![]), "kf"),
+                            8 => Expr::paren(Expr::Cast(Box::new(k0), any())),
+                            _ => k0,
+                        };
                         let val = call("ext", vec![Expr::str("v")]);
-                        let pre = call("extt", vec![]);
-                        let target = if self.r.bool() { Expr::index(pre, key) } else { Expr::field(pre, "fld") };
+                        let p0 = call("extt", vec![]);
+                        let pre = match self.r.below(6) {
+                            0 => Expr::paren(p0),
+                            1 => Expr::paren(Expr::Cast(Box::new(p0), any())),
+                            2 => Expr::field(Expr::paren(Expr::Table(vec![TableItem::Named("t".into(), p0)])), "t"),
+                            3 => Expr::index(Expr::paren(Expr::Table(vec![TableItem::Named("t".into(), p0)])), Expr::str("t")),
+                            _ => p0,
+                        };
+                        let target = if self.r.chance(2, 3) { Expr::index(pre, key) } else { Expr::field(pre, "fld") };
                         out.push(Stmt::CompoundAssign { target, op: *self.r.pick(&[BinOp::Add, BinOp::Concat, BinOp::Div]), value: val });
                     }
                     3 if !recs.is_empty() => {
